@@ -13,6 +13,12 @@ C  resolveImports / csscombine over VIRTUAL file systems served by a counting fe
    rules, but cssutils documents that it keeps the @import).  Every URL is compared AFTER resolving it: urljoin(combined href, new) == urljoin(origin href, old).
    Each available target must be fetched exactly once, an unavailable one at most once.
 
+D  the same flattening on trees EDITED THROUGH THE DOM between parsing (targets loaded) and resolveImports: the media of an edge assigned in every way the DOM offers
+   (rule.media = text / MediaList, rule.media.mediaText, appendMedium / deleteMedium, rule.cssText), an edge retargeted, inserted, deleted, rules of an imported sheet
+   added / deleted.  'media on any edge' of the statement's quantifier: an edge whose media was set through the DOM is an edge with media.  Oracle: expand() of the file
+   system with the same edit applied to the abstract sheet.
+(url() values sit up to three function levels deep in A and in the imported sheets of C, two levels deep in every sheet of a chain.)
+
 Failures are attributed to a recorded finding only through the finding's own symptom on exactly that URL / that structure (see URL_CLASSES, _attribute_structure).
 """
 import itertools
@@ -82,6 +88,9 @@ def _value_shapes():
         ('two', lambda f: G.V(i, _u(f()), ',', _u(f()))),
         ('function', lambda f: G.V(('function', 'f', G.V(_u(f()))), _u(f()))),
         ('mixed', lambda f: G.V(_u(f()), ('function', 'format', G.V(('string', 'woff'))), ',', ('function', 'g', G.V(i, ',', _u(f()))))),
+        # url() two and three function levels deep, as first / middle / last argument, next to URLs of the shallower levels (document order across levels)
+        ('nested2', lambda f: G.V(('function', 'f', G.V(('function', 'g', G.V(_u(f()), ('number', '1'))), ',', _u(f()), ',', ('percentage', '50'))), _u(f()))),
+        ('nested3', lambda f: G.V(_u(f()), ('function', 'f', G.V(i, ',', ('function', 'g', G.V(_u(f()), ',', ('function', 'h', G.V(i, _u(f()))), ',', _u(f()))), ',', _u(f()))))),
     ]
 
 
@@ -132,10 +141,10 @@ def url_sheets(tier, seed):
                 if tier != 'thorough' and second is not None and (k + si + ii) % 3:
                     continue
                 n[0] = 0
-                rules = [first[1](items(shape), items(shapes[(si + 1) % 4][1]))]
+                rules = [first[1](items(shape), items(shapes[(si + 1) % len(shapes)][1]))]
                 label = 'urls/%s' % first[0]
                 if second is not None:
-                    rules.append(second[1](items(shapes[(si + 2) % 4][1]), items(shape)))
+                    rules.append(second[1](items(shapes[(si + 2) % len(shapes)][1]), items(shape)))
                     label += ',' + second[0]
                 out.append(('%s/%s/imports%d' % (label, sl, len(imp)), tuple(imp) + tuple(rules)))
         k += 1
@@ -490,9 +499,23 @@ MEDIA = {
 BENIGN_URLS = ('img/%s.png', '../up/%s.png', '/abs/%s.png', 'http://cdn/%s.png', 'data:image/png;base64,AA==')
 
 
+def fn_value(depth, n='k'):
+    """a value with url() at every function level 1..depth and one outside: f1(url(img/n-in1.png), f2(url(img/n-in2.png), ...)) url(n-out.png)"""
+    inner = None
+    for lvl in range(depth, 0, -1):
+        parts = [_u('img/%s-in%d.png' % (n, lvl))]
+        if inner is not None:
+            parts += [',', inner]
+        inner = ('function', 'f%d' % lvl, G.V(*parts))
+    return G.V(inner, _u('%s-out.png' % n))
+
+
+FN_DEPTHS = (1, 2, 3)
+
+
 def body(kind, n, urls=BENIGN_URLS):
-    """the own rules of a virtual sheet named n"""
-    decls = [G.Decl('x%d' % i, G.V(_u(t % n if '%s' in t else t))) for i, t in enumerate(urls)]
+    """the own rules of a virtual sheet named n; an entry ('FN', depth) of urls stands for fn_value(depth, n)"""
+    decls = [G.Decl('x%d' % i, fn_value(t[1], n) if isinstance(t, tuple) else G.V(_u(t % n if '%s' in t else t))) for i, t in enumerate(urls)]
     st = G.Style([G.Sel(G.C(None, ('class', n)))], decls)
     st2 = G.Style([G.Sel(G.C(n))], [G.Decl('top', G.V(('number', '0')))])
     if kind == 'style':
@@ -851,6 +874,7 @@ def vfs_single(tier):
 
 CHAIN_LOCS = ('same', 'child', 'parent', 'sibling', 'rootrel', 'otherhost')
 CHAIN_MEDIA = ('none', 'screen')
+CHAIN_URLS = BENIGN_URLS + (('FN', 2),)
 
 
 def vfs_chains(tier, seed):
@@ -873,10 +897,11 @@ def vfs_chains(tier, seed):
             combos = pw + rnd.sample(rest, limit - len(pw))
         for locs, medias in combos:
             # edge i leads from t(i) (t0 = the root m) to t(i+1)
+            # (every sheet of a chain also holds url() values one and two function levels deep: re-based once per edge)
             nd = None
             for i in range(d, 0, -1):
-                nd = node('t%d' % i, 'style', [(locs[i], medias[i], nd)] if (nd and i < d) else [])
-            root = node('m', 'style', [(locs[0], medias[0], nd)])
+                nd = node('t%d' % i, 'style', [(locs[i], medias[i], nd)] if (nd and i < d) else [], urls=CHAIN_URLS)
+            root = node('m', 'style', [(locs[0], medias[0], nd)], urls=CHAIN_URLS)
             out.append(('chain%d/%s/%s' % (d, '-'.join(locs), '-'.join(medias)), root))
     return out
 
@@ -906,7 +931,8 @@ def vfs_urlforms(tier):
         for form in URL_FORMS + ['i/', 'i/k.png?a=/b/../c', './d/../e.png', '../../../../../up.png']:
             a = node('a', 'style', urls=(form, 'k.png'))
             out.append(('urlform/%s/%r' % (loc, form), node('m', 'style', [(loc, 'none', a)])))
-        out.append(('urlform/%s/function' % loc, node('m', 'style', [(loc, 'none', node('a', 'style', urls=('FN',)))])))
+        for d in FN_DEPTHS:
+            out.append(('urlform/%s/function-depth%d' % (loc, d), node('m', 'style', [(loc, 'none', node('a', 'style', urls=(('FN', d),)))])))
     return out
 
 
@@ -929,17 +955,7 @@ def all_vfs(tier, seed):
 
 
 def _build(spec):
-    vfs = build_vfs(spec)
-    # the 'FN' marker: a URL inside a function argument
-    for url, sheet in list(vfs.items()):
-        if any(r[0] == 'style' and any(d[0] == 'decl' and d[2] and d[2][0][1] == ('url', 'FN') for d in r[2]) for r in sheet):
-            new = []
-            for r in sheet:
-                if r[0] == 'style':
-                    r = ('style', r[1], tuple(('decl', d[1], G.V(('function', 'f', G.V(_u('in.png'))), _u('out.png')), d[3]) if d[2][0][1] == ('url', 'FN') else d for d in r[2]))
-                new.append(r)
-            vfs[url] = tuple(new)
-    return vfs
+    return build_vfs(spec)
 
 
 def _w_vfs(args):
@@ -953,6 +969,288 @@ def _w_vfs(args):
         res['kinds'].add(label if not label.startswith('chain') else label)
         for cl, detail, fid in fails:
             res['fails'].append({'clause': cl, 'detail': detail, 'known': fid, 'inputs': {'label': label, 'files': {u: gen.render(s) for u, s in vfs.items()}, 'root': ROOT}})
+    return res
+
+
+# ------------------------------------------------------------------------------------------------ D: parse / edit through the DOM / flatten
+
+CL_EDIT = 'bounded: the DOM edit of the import tree is accepted (no exception, the rule found where the file system puts it)'
+EDIT_MEDIA_WAYS = ('string', 'object', 'inplace', 'csstext')
+SPARE = 'sub2/spare.css'
+
+
+def _media_text(media):
+    return re.sub(r'\s+', ' ', gen.render_media(media)).strip() or 'all'
+
+
+def dom_sheet(root, url):
+    """the DOM sheet loaded from url, found by walking the @import rules"""
+    if root.href == url:
+        return root
+    for r in root.cssRules:
+        if r.type == r.IMPORT_RULE and r.hrefFound and r.styleSheet is not None:
+            got = dom_sheet(r.styleSheet, url)
+            if got is not None:
+                return got
+    return None
+
+
+def _last_import(sheet):
+    """index after the last charset / import rule of an abstract sheet"""
+    i = 0
+    for k, r in enumerate(sheet):
+        if r[0] in ('charset', 'import'):
+            i = k + 1
+    return i
+
+
+def edit_abstract(vfs, e):
+    """the file system after the edit (the file system the edited DOM denotes)"""
+    sheet = list(vfs[e['sheet']])
+    op, i = e['op'], e.get('index')
+    if op == 'media':
+        r = sheet[i]
+        sheet[i] = G.Import(r[1], e['media'], r[3])
+    elif op == 'href':
+        r = sheet[i]
+        sheet[i] = G.Import(e['href'], r[2], r[3])
+    elif op == 'insert-import':
+        if e['way'] == 'add':
+            i = _last_import(sheet)
+        sheet.insert(i, G.Import(e['href'], e['media']))
+    elif op == 'delete':
+        del sheet[i]
+    elif op == 'insert-rule':
+        sheet.insert(len(sheet) if i is None else i, e['rule'])
+    else:
+        raise ValueError(op)
+    out = dict(vfs)
+    out[e['sheet']] = tuple(sheet)
+    return out
+
+
+def edit_dom(cssutils, root, vfs, e):
+    """apply the edit to the parsed tree; -> description (python-like) of what was done"""
+    import cssutils.css
+    import cssutils.stylesheets
+    ds = dom_sheet(root, e['sheet'])
+    if ds is None:
+        raise LookupError('no loaded sheet for %s' % e['sheet'])
+    op, i, way = e['op'], e.get('index'), e.get('way')
+    where = 'sheet(%r)' % e['sheet']
+    if op in ('media', 'href', 'delete'):
+        r = ds.cssRules[i]
+        a = vfs[e['sheet']][i]
+        if a[0] == 'import' and (r.type != r.IMPORT_RULE or r.href != a[1]):
+            raise LookupError('rule %d of %s is %r, expected the @import of %r' % (i, e['sheet'], r.cssText, a[1]))
+        where += '.cssRules[%d]' % i
+    if op == 'media':
+        text = _media_text(e['media'])
+        if way == 'string':
+            r.media = text
+            return '%s.media = %r' % (where, text)
+        if way == 'object':
+            r.media = cssutils.stylesheets.MediaList(mediaText=text)
+            return '%s.media = MediaList(mediaText=%r)' % (where, text)
+        if way == 'inplace':
+            r.media.mediaText = text
+            return '%s.media.mediaText = %r' % (where, text)
+        if way == 'csstext':
+            t = gen.render_rule(G.Import(a[1], e['media'], a[3]))
+            r.cssText = t
+            return '%s.cssText = %r' % (where, t)
+        if way == 'append':
+            r.media.appendMedium(e['medium'])
+            return '%s.media.appendMedium(%r)' % (where, e['medium'])
+        if way == 'delete-medium':
+            r.media.deleteMedium(e['medium'])
+            return '%s.media.deleteMedium(%r)' % (where, e['medium'])
+    elif op == 'href':
+        if way == 'attr':
+            r.href = e['href']
+            return '%s.href = %r' % (where, e['href'])
+        if way == 'csstext':
+            t = gen.render_rule(G.Import(e['href'], a[2], a[3]))
+            r.cssText = t
+            return '%s.cssText = %r' % (where, t)
+    elif op == 'insert-import':
+        t = gen.render_rule(G.Import(e['href'], e['media']))
+        if way == 'insertRule':
+            ds.insertRule(t, i)
+            return '%s.insertRule(%r, %d)' % (where, t, i)
+        if way == 'insertRule-object':
+            ds.insertRule(cssutils.css.CSSImportRule(href=e['href'], mediaText=_media_text(e['media'])), i)
+            return '%s.insertRule(CSSImportRule(href=%r, mediaText=%r), %d)' % (where, e['href'], _media_text(e['media']), i)
+        if way == 'add':
+            ds.add(cssutils.css.CSSImportRule(href=e['href'], mediaText=_media_text(e['media'])))
+            return '%s.add(CSSImportRule(href=%r, mediaText=%r))' % (where, e['href'], _media_text(e['media']))
+    elif op == 'delete':
+        ds.deleteRule(i)
+        return '%s.deleteRule(%d)' % (e['sheet'], i)
+    elif op == 'insert-rule':
+        t = gen.render_rule(e['rule'])
+        if way == 'insertRule':
+            ds.insertRule(t, ds.cssRules.length if i is None else i)
+            return '%s.insertRule(%r, %s)' % (where, t, 'end' if i is None else i)
+        if way == 'add':
+            ds.add(cssutils.css.CSSStyleRule(selectorText=gen.render_selector(e['rule'][1][0]), style=gen.render_items(e['rule'][2])))
+            return '%s.add(CSSStyleRule(...%r))' % (where, t)
+    raise ValueError((op, way))
+
+
+def check_history(label, vfs0, edits):
+    """parse the root of vfs0 (targets get loaded), apply the edits through the DOM, flatten with resolveImports; the oracle is expand() of the EDITED file system
+    -> (evaluations, [(clause, detail, known)], [descriptions of the edits])"""
+    cssutils = _quiet()
+    files = render_vfs(vfs0)
+    vfs1 = vfs0
+    for e in edits:
+        vfs1 = edit_abstract(vfs1, e)
+    alts = expand(vfs1, ROOT)
+    fails = []
+    done = []
+
+    def fail(clause, detail, fid=None):
+        fails.append((clause, '%s | parse; %s; resolveImports | %s' % (label, '; '.join(done), detail), fid))
+
+    f = Fetcher(files)
+    try:
+        sheet = cssutils.CSSParser(fetcher=f).parseString(files[ROOT], href=ROOT)
+        v = vfs0
+        try:
+            for e in edits:
+                done.append(edit_dom(cssutils, sheet, v, e))
+                v = edit_abstract(v, e)
+        except Exception as ex:  # noqa: BLE001
+            done.append('<%s>' % e['op'])
+            fail(CL_EDIT, '%s: %s' % (type(ex).__name__, str(ex)[:200]))
+            return 1, fails, done
+        # (the sheet as text describes the edited tree: a precondition of the comparison, reported under its own clause)
+        flat = cssutils.resolveImports(sheet)
+        for cl, d, fid in compare_flat(gen.project(flat, lenient=True), alts, ROOT):
+            fail(cl, d, fid)
+        if all(e['op'] == 'media' and e['way'] != 'csstext' for e in edits):
+            # a pure media edit loads nothing: still one fetch per available target
+            av, un = reachable(vfs0, ROOT)
+            for u in sorted(set(f.log) | set(av)):
+                c = f.log.count(u)
+                if u in av and c != av.count(u):
+                    fail(CL_FETCH, '%s fetched %d time(s), imported %d time(s)' % (u, c, av.count(u)))
+                elif u in un and c > un.count(u):
+                    fail(CL_FETCH, 'unavailable %s fetched %d time(s), imported %d time(s)' % (u, c, un.count(u)), 'C19-unavailable-target-fetched-again')
+                elif u not in av and u not in un:
+                    fail(CL_FETCH, '%s fetched %d time(s) but is not an @import target of a loaded sheet' % (u, c))
+    except Exception as ex:  # noqa: BLE001
+        fail(CL_RAISES, '%s: %s' % (type(ex).__name__, str(ex)[:200]))
+    finally:
+        cssutils.log.raiseExceptions = True
+    return 1, fails, done
+
+
+HIST_KINDS = ('style', 'fontface', 'namespace', None)
+
+
+def _hist_tree(ka, m_a, m_c, m_b, kc='style'):
+    """root m -> [a (in sub/) -> [c (in ../sib/)], b]; a spare sheet that nobody imports lies in sub2/ (relative to every sheet that may be retargeted)"""
+    c = node('c', kc) if kc else None
+    a = node('a', ka, [('sibling', m_c, c)]) if ka else None
+    root = node('m', 'style', [('child', m_a, a), ('same', m_b, node('b', 'style2'))])
+    vfs = build_vfs(root)
+    spare = body('style', 'spare', BENIGN_URLS + (('FN', 2),))
+    for u in list(vfs):
+        vfs.setdefault(urljoin(u, SPARE), spare)
+    return vfs
+
+
+_MEMO = {}
+
+
+def _memo(fn):
+    """the enumerations are pure functions of (tier, seed): built once in the parent, inherited by the forked workers"""
+    def wrapper(*args):
+        key = (fn.__name__,) + args
+        if key not in _MEMO:
+            _MEMO[key] = fn(*args)
+        return _MEMO[key]
+    wrapper.__name__ = fn.__name__
+    wrapper.__doc__ = fn.__doc__
+    return wrapper
+
+
+@_memo
+def histories(tier):
+    """[(label, vfs0, [edit])] - see the rule text in edited_trees()"""
+    out = []
+    A = urljoin(ROOT, 'sub/a.css')
+    handheld = ((None, 'handheld', ()),)
+    # (1) the media of one edge assigned: every media before x every media after x every way of assigning x target kinds x three edges
+    for m0, m1 in itertools.product(MEDIA, repeat=2):
+        for way in EDIT_MEDIA_WAYS:
+            for ka in HIST_KINDS:
+                out.append(('edit-media/root-edge-1/%s->%s/%s/%s' % (m0, m1, way, ka or 'missing'), _hist_tree(ka, m0, 'none', 'print'),
+                            [{'sheet': ROOT, 'op': 'media', 'index': 0, 'media': MEDIA[m1], 'way': way}]))
+            out.append(('edit-media/root-edge-2/%s->%s/%s' % (m0, m1, way), _hist_tree('style', 'screen', 'none', m0),
+                        [{'sheet': ROOT, 'op': 'media', 'index': 1, 'media': MEDIA[m1], 'way': way}]))
+            for kc in HIST_KINDS:
+                nth = list(MEDIA).index(m0) + list(MEDIA).index(m1) + EDIT_MEDIA_WAYS.index(way) + (kc is None)
+                for m_a in ('none', 'print'):
+                    if tier == 'quick' and (kc in ('fontface', 'namespace') or (m_a == 'print') != (nth % 2 == 1)):
+                        continue   # quick: style / missing target, the media of the outer edge alternating
+                    out.append(('edit-media/nested-edge/%s->%s/%s/%s/outer-%s' % (m0, m1, way, kc or 'missing', m_a), _hist_tree('style', m_a, m0, 'none', kc),
+                                [{'sheet': A, 'op': 'media', 'index': 0, 'media': MEDIA[m1], 'way': way}]))
+    # (2) media lists edited medium by medium
+    for m0 in ('screen', 'print', 'list', 'query'):
+        for where, idx, tree in (('root-edge-1', 0, lambda m: _hist_tree('style', m, 'none', 'none')), ('nested-edge', 0, lambda m: _hist_tree('style', 'none', m, 'none'))):
+            sh = ROOT if where.startswith('root') else A
+            out.append(('edit-medium/%s/%s+handheld' % (where, m0), tree(m0), [{'sheet': sh, 'op': 'media', 'index': idx, 'media': MEDIA[m0] + handheld, 'way': 'append', 'medium': 'handheld'}]))
+        out.append(('edit-medium/root-edge-1/%s+all' % m0, _hist_tree('style', m0, 'none', 'none'), [{'sheet': ROOT, 'op': 'media', 'index': 0, 'media': MEDIA['all'], 'way': 'append', 'medium': 'all'}]))
+    for sh, tree in ((ROOT, _hist_tree('style', 'list', 'none', 'none')), (A, _hist_tree('style', 'none', 'list', 'none'))):
+        out.append(('edit-medium/%s/list-tv' % ('root-edge-1' if sh == ROOT else 'nested-edge'), tree, [{'sheet': sh, 'op': 'media', 'index': 0, 'media': MEDIA['print'], 'way': 'delete-medium', 'medium': 'tv'}]))
+    # (3) every edge edited in one history, each in another way (rotating)
+    for k, (m0, m1) in enumerate(itertools.product(MEDIA, repeat=2)):
+        names = list(MEDIA)
+        m2 = names[(names.index(m1) + 1 + k // 6) % len(names)]
+        for rot in range(len(EDIT_MEDIA_WAYS)):
+            w = [EDIT_MEDIA_WAYS[(rot + j) % len(EDIT_MEDIA_WAYS)] for j in range(3)]
+            out.append(('edit-media/all-edges/%s->%s,%s/%s' % (m0, m1, m2, '-'.join(w)), _hist_tree('style', m0, m0, m1),
+                        [{'sheet': ROOT, 'op': 'media', 'index': 0, 'media': MEDIA[m1], 'way': w[0]},
+                         {'sheet': A, 'op': 'media', 'index': 0, 'media': MEDIA[m2], 'way': w[1]},
+                         {'sheet': ROOT, 'op': 'media', 'index': 1, 'media': MEDIA[m0], 'way': w[2]}]))
+    # (4) an edge retargeted, inserted, deleted; the rules of an imported sheet edited
+    for media in ('none', 'screen'):
+        for way in ('attr', 'csstext'):
+            for ka in ('style', None):
+                for href in (SPARE, 'sub2/nothing.css', 'b.css'):
+                    out.append(('edit-href/root-edge-1/%s/%s/%s->%s' % (media, way, ka or 'missing', href), _hist_tree(ka, media, 'none', 'none'),
+                                [{'sheet': ROOT, 'op': 'href', 'index': 0, 'href': href, 'way': way}]))
+            for href in (SPARE, 'sub2/nothing.css'):
+                out.append(('edit-href/nested-edge/%s/%s->%s' % (media, way, href), _hist_tree('style', 'print', media, 'none'), [{'sheet': A, 'op': 'href', 'index': 0, 'href': href, 'way': way}]))
+        for m_new in ('none', 'print', 'query'):
+            for way in ('insertRule', 'insertRule-object', 'add'):
+                for sh, n_imp in ((ROOT, 2), (A, 1)):
+                    for i in ([0, n_imp] if way != 'add' else [None]):
+                        for href in (SPARE, 'sub2/nothing.css'):
+                            out.append(('insert-import/%s/%s/%s@%s/%s/%s' % ('root' if sh == ROOT else 'nested', media, way, i, m_new, href), _hist_tree('style', media, media, 'none'),
+                                        [{'sheet': sh, 'op': 'insert-import', 'index': i, 'href': href, 'media': MEDIA[m_new], 'way': way}]))
+        for sh, i in ((ROOT, 0), (ROOT, 1), (A, 0)):
+            out.append(('delete-import/%s/%s[%d]' % (media, 'root' if sh == ROOT else 'nested', i), _hist_tree('style', media, media, media), [{'sheet': sh, 'op': 'delete', 'index': i}]))
+        extra = G.Style([G.Sel(G.C(None, ('class', 'new')))], [G.Decl('background', fn_value(2, 'new'))])
+        for way in ('insertRule', 'add'):
+            out.append(('edit-imported-sheet/%s/%s' % (media, way), _hist_tree('style', media, 'none', 'none'), [{'sheet': A, 'op': 'insert-rule', 'index': None, 'rule': extra, 'way': way}]))
+        out.append(('edit-imported-sheet/%s/deleteRule' % media, _hist_tree('style', media, 'none', 'none'), [{'sheet': A, 'op': 'delete', 'index': 1}]))
+    return out
+
+
+def _w_hist(args):
+    tier, lo, hi = args
+    res = {'n': 0, 'kinds': set(), 'fails': []}
+    for label, vfs0, edits in histories(tier)[lo:hi]:
+        n, fails, done = check_history(label, vfs0, edits)
+        res['n'] += n
+        res['kinds'].add(label)
+        for cl, detail, fid in fails:
+            res['fails'].append({'clause': cl, 'detail': detail, 'known': fid,
+                                 'inputs': {'label': label, 'files': {u: gen.render(s) for u, s in vfs0.items()}, 'root': ROOT, 'edits': done}})
     return res
 
 
@@ -1059,9 +1357,10 @@ def urls_and_replacement(ctx):
     results = _pool_run(ctx, _w_urls, tasks)
     _report(ctx, results, 'getUrls / replaceUrls on generated sheets',
             'sheets with url() values in 8 contexts (style rule at top level / in @media / in nested @media, @page, margin box, @page + margin boxes, @font-face, @page in @media) alone and in every ordered '
-            'pair, 4 value shapes (one URL, two URLs, URLs inside function arguments, mixed), two declarations of the same property per block, 0 / 1 / 2 @import rules; %d URL forms as url() and as @import '
+            'pair, 6 value shapes, two declarations of the same property per block, 0 / 1 / 2 @import rules; %d URL forms as url() and as @import '
             'target; every sheet of bounded/gen.py holding a URL; per sheet: getUrls, identity replacer, recording+tagging replacer, ignoreImportRules=True, the CSSStyleDeclaration overload; '
-            'oracle = the URL list of the abstract sheet (gen.urls order: imports, then document order); distinct = sheet shape' % len(URL_FORMS),
+            'oracle = the URL list of the abstract sheet (gen.urls order: imports, then document order); distinct = sheet shape; the 6 value shapes: one URL, two URLs, URLs inside function arguments, mixed, '
+            'url() two function levels deep (first argument of the inner function) next to URLs of levels 1 and 0, url() at levels 0, 1, 2, 3 in one value' % len(URL_FORMS),
             '%d sheets (%s)' % (len(sheets), 'pairs of contexts thinned to every 2nd shape / 3rd import variant' if ctx.tier == 'quick' else 'all pairs of contexts x shapes x import variants'),
             [{'label': sheets[5][0], 'text': gen.render(sheets[5][1])}], t0)
 
@@ -1092,11 +1391,33 @@ def flattening(ctx):
             'virtual file systems {URL: abstract sheet} served by a counting fetcher, root at %s: (single) one @import x %d target locations (same / ./ / child / grandchild / parent / sibling / '
             'grandparent directory, root-relative, scheme-relative, absolute, other host, scheme-relative other host) x %d media (none, all, one type, a list, a media query) x %d target bodies + missing target; '
             '(chain) import chains of depth 2-%d with every edge in one of %d locations x media on/off (%s); (branch) root -> [A -> [C], B] with unwrappable bodies '
-            '(@font-face, @namespace, @media) and missing targets at every place x media on every edge; (urlform) every URL form in an imported sheet x every import location; (cycle) self import, 2- and 3-cycles, '
+            '(@font-face, @namespace, @media) and missing targets at every place x media on every edge; (urlform) every URL form in an imported sheet, and url() at function depth 1, 2, 3 (one URL per level), x every import location; every sheet of a chain holds url() values 1 and 2 function levels deep; (cycle) self import, 2- and 3-cycles, '
             'a diamond; each run through resolveImports, csscombine(url=, minify=True) and csscombine(cssText=, href=, minify=False); oracle = expand() of this module (urljoin for every URL); '
             'distinct = file system' % (ROOT, len(LOCS), len(MEDIA), len(BODIES), 3 if ctx.tier == 'quick' else 4, len(CHAIN_LOCS), 'depth 2 complete, depth 3: pairwise + seeded sample' if ctx.tier == 'quick' else 'depth 2 over all 12 locations x 5 media, depths 3 and 4 complete'),
             '%d file systems: %s' % (len(specs), ', '.join('%s %d' % kv for kv in sorted(counts.items()))),
             [{'label': specs[100][0], 'files': {u: gen.render(s) for u, s in _build(specs[100][1]).items()}}], t0)
+
+
+def edited_trees(ctx):
+    """part D"""
+    t0 = time.time()
+    hs = histories(ctx.tier)
+    tasks = [(ctx.tier, lo, hi) for lo, hi in _chunks(len(hs), ctx)]
+    results = _pool_run(ctx, _w_hist, tasks)
+    counts = {}
+    for label, _, _ in hs:
+        counts[label.split('/')[0]] = counts.get(label.split('/')[0], 0) + 1
+    _report(ctx, results, 'resolveImports on import trees edited through the DOM between parsing and flattening',
+            'histories parse (targets get loaded) / edit / resolveImports over the tree root -> [a in sub/ -> [c in ../sib/], b] with a spare sheet in sub2/: (edit-media) the media of ONE edge - first or second '
+            'edge of the root, the edge inside the imported sheet - set from each of the %d media to each of them in %d ways (rule.media = text, rule.media = MediaList, rule.media.mediaText = text, rule.cssText = text) '
+            'x target body (style rules, @font-face, @namespace, missing); (edit-medium) appendMedium / deleteMedium on the list of an edge; (all-edges) all three edges edited in one history, the ways rotating; '
+            '(edit-href) an edge retargeted to a spare sheet of another directory / a missing one / an already imported one by rule.href and by rule.cssText; (insert-import) an @import inserted by '
+            'insertRule(text), insertRule(CSSImportRule) and add(CSSImportRule) first / last, with and without media, into the root and into an imported sheet; (delete-import) deleteRule of each edge; '
+            '(edit-imported-sheet) a rule with url() values added to / deleted from an imported sheet; oracle = expand() of the file system with the same edit applied to the abstract sheet (the tree the edited '
+            'DOM denotes), URLs compared by urljoin; for pure media edits also the fetch log (an edit of the media loads nothing); distinct = history' % (len(MEDIA), len(EDIT_MEDIA_WAYS)),
+            '%d histories of 1-3 edits (%s): %s' % (len(hs), 'inner edge: style / missing target only, the media of the outer edge alternating' if ctx.tier == 'quick' else 'inner edge: all 4 target bodies x outer edge with / without media',
+                                                 ', '.join('%s %d' % kv for kv in sorted(counts.items()))),
+            [{'label': hs[1][0], 'edits': [{k: v for k, v in e.items() if k in ('sheet', 'op', 'index', 'way')} for e in hs[1][2]]}], t0)
 
 
 def encodings(ctx):
